@@ -298,15 +298,18 @@ Definition wf_cfg (c : @abf_cfg R) : Prop := c_szd c = true -> c_same_step c = t
 Local Notation trace_of := (trace_of Rops).
 Local Notation trace_from := (trace_from Rops).
 
-(* a state in which no step was made yet: the freshly initialised bias, with or without data read
-   through inputPrefix *)
-Definition fresh (s : @abf_state R) : Prop := s_started s = false /\ s_rel s = 0%Z.
+(* a state in which the bias has not been updated yet: the freshly initialised bias, with or without data read
+   through inputPrefix or a state file, at the start of the run (no step made) or defined while the simulation is
+   running (force_bin still outside of the grid) *)
+Definition fresh (c : @abf_cfg R) (s : @abf_state R) : Prop :=
+  (s_started s = false /\ s_rel s = 0%Z) \/ index_ok c (s_fbin s) = false.
 
 Lemma first_step_lag c s i :
-  fresh s -> c_szd c = false -> c_same_step c = false -> st_doacc Rops c s i = false.
+  fresh c s -> c_szd c = false -> c_same_step c = false -> st_doacc Rops c s i = false.
 Proof.
-  intros [Hst Hrel] Hszd Hsame. unfold st_doacc, st_clk, clock. rewrite Hst, Hrel.
-  cbn [fst snd]. rewrite Hszd. cbn. reflexivity.
+  intros [[Hst Hrel]|Hfb] Hszd Hsame.
+  - unfold st_doacc, st_clk, clock. rewrite Hst, Hrel. cbn [fst snd]. rewrite Hszd. cbn. reflexivity.
+  - unfold st_doacc, st_fbin. rewrite Hsame, Hfb. apply andb_false_r.
 Qed.
 
 Lemma steady_forall c a h : steady c a h -> c_same_step c = false -> c_hidej c = true -> Forall (fun i => i_apply i = a) h.
@@ -314,7 +317,7 @@ Proof. intros H Hs Hh. exact (H Hh Hs). Qed.
 
 (* from ANY fresh state s0: what the history adds to the grids of s0 *)
 Theorem run_from_fresh (c : @abf_cfg R) (s0 : @abf_state R) (h : list (@abf_in R)) (b : idx) (a : bool) :
-  wf_cfg c -> steady c a h -> fresh s0 ->
+  wf_cfg c -> steady c a h -> fresh c s0 ->
   let r := abf_run_from Rops c s0 h in
   let S := attributed Rops c (trace_from c s0 h) in
   s_cnt (fst r) b = (s_cnt s0 b + cnt_of b S)%Z /\
@@ -344,13 +347,13 @@ Proof.
       * intros k Hk. rewrite (Hs k Hk), Hs0. reflexivity.
 Qed.
 
-Lemma fresh_init c : fresh (abf_init Rops c).
-Proof. split; reflexivity. Qed.
-Lemma fresh_add_data c s d : fresh s -> fresh (abf_add_data Rops c s d).
-Proof. intros [H1 H2]. split; assumption. Qed.
-Lemma fresh_fold c l : forall s, fresh s -> fresh (fold_left (abf_add_data Rops c) l s).
+Lemma fresh_init c : fresh c (abf_init Rops c).
+Proof. left. split; reflexivity. Qed.
+Lemma fresh_add_data c s d : fresh c s -> fresh c (abf_add_data Rops c s d).
+Proof. intros H. exact H. Qed.
+Lemma fresh_fold c l : forall s, fresh c s -> fresh c (fold_left (abf_add_data Rops c) l s).
 Proof. induction l as [|d l IH]; intros s H; cbn [fold_left]; [exact H | apply IH, fresh_add_data, H]. Qed.
-Lemma fresh_init_data c l : fresh (abf_init_data Rops c l).
+Lemma fresh_init_data c l : fresh c (abf_init_data Rops c l).
 Proof. unfold abf_init_data. apply fresh_fold, fresh_init. Qed.
 
 (* what the data sets contain: the summed counts, and the summed gradient * count *)
@@ -956,8 +959,8 @@ Qed.
 
 (* T1 after a restart: whatever happened before, the grids after a restart from the data set d followed by the
    steps h are d plus the samples attributed in h *)
-Lemma fresh_set_grids c d : fresh (abf_set_grids Rops c (abf_init Rops c) d 0).
-Proof. split; reflexivity. Qed.
+Lemma fresh_set_grids c d : fresh c (abf_set_grids Rops c (abf_init Rops c) d 0).
+Proof. left. split; reflexivity. Qed.
 
 Lemma run_events_app c evs1 evs2 :
   abf_run_events Rops c (evs1 ++ evs2) = fold_left (abf_event_apply Rops c) evs2 (abf_run_events Rops c evs1).
@@ -998,3 +1001,66 @@ Lemma example_event_ok : Forall event_ok [EvStep (@mkIn R [(1/2)%R] [1%R] [0%R] 
                                           EvRestart ((fun _ => 2%Z), (fun _ => [1%R]));
                                           EvReload ((fun _ => 0%Z), (fun _ => [0%R]))].
 Proof. repeat constructor; intros b; cbn [fst]; lia. Qed.
+
+
+(* ---------------------------------------------------------------- the bias defined while the simulation is running *)
+
+Lemma index_ok_minus1 (c : @abf_cfg R) : (0 < c_nd c)%nat -> index_ok c (repeat (-1)%Z (c_nd c)) = false.
+Proof.
+  intros H. unfold index_ok. destruct (c_nd c) as [|n]; [lia|].
+  cbn [seq forallb repeat]. unfold zget at 1. cbn [nth]. reflexivity.
+Qed.
+
+Lemma fresh_init_late (c : @abf_cfg R) rel : (0 < c_nd c)%nat -> fresh c (abf_init_late Rops c rel).
+Proof. intros H. right. unfold abf_init_late. cbn [s_fbin]. apply index_ok_minus1. exact H. Qed.
+
+(* T1 for a bias defined after the engine has made steps (the last one with step_relative = rel): the grids are
+   the samples attributed in its own history; nothing of what happened before it existed enters a bin *)
+Theorem abf_state_late_definition c rel h b a :
+  wf_cfg c -> apply_const a h -> (0 < c_nd c)%nat ->
+  let s0 := abf_init_late Rops c rel in
+  let r := abf_run_from Rops c s0 h in
+  let S := attributed Rops c (ABFModel.trace_from Rops c s0 h) in
+  s_cnt (fst r) b = cnt_of b S /\
+  forall k, (k < c_nd c)%nat -> vget Rops (s_sum (fst r) b) k = - fsum_of k b S.
+Proof.
+  intros Hwf Hc Hnd. cbn zeta.
+  pose proof (run_from_fresh c (abf_init_late Rops c rel) h b a Hwf (steady_const c a h Hc) (fresh_init_late c rel Hnd)) as H.
+  cbn zeta in H. destruct H as [H1 H2]. split.
+  - rewrite H1. unfold abf_init_late. cbn [s_cnt]. lia.
+  - intros k Hk. rewrite (H2 k Hk). unfold abf_init_late. cbn [s_sum]. rewrite vget_vzero. lra.
+Qed.
+
+(* ---------------------------------------------------------------- T1 across a reload into the running instance *)
+
+Lemma link_set_grids c s p d rel : link c s p -> link c (abf_set_grids Rops c s d rel) p.
+Proof. intros H. exact H. Qed.
+
+(* The state file is loaded into the instance that is running, after the step i0 (made from any state s): the grids
+   become the data set d, and from then on they receive the samples delivered after the load: in the lagged
+   convention the first of them is the force of step i0 itself (exerted before the load, delivered after it, attributed
+   to the bin of i0); with same-step forces the samples of the steps h. *)
+Theorem abf_state_after_reload c s i0 d h b :
+  wf_cfg c -> (c_hidej c = true -> Forall (fun i => i_apply i = i_apply i0) h) ->
+  let so := abf_step Rops c s i0 in
+  let s' := abf_set_grids Rops c (fst so) d 0 in
+  let p := (i0, snd so) in
+  let r := abf_run_from Rops c s' h in
+  let tr := ABFModel.trace_from Rops c s' h in
+  let A := attributed_of c (if c_same_step c then deliveries_same Rops c tr else deliveries_lag Rops c (Some p) tr) in
+  s_cnt (fst r) b = (fst d b + cnt_of b A)%Z /\
+  forall k, (k < c_nd c)%nat -> vget Rops (s_sum (fst r) b) k = vget Rops (snd d b) k * IZR (fst d b) - fsum_of k b A.
+Proof.
+  intros Hwf Hst. cbn zeta. unfold ABFModel.trace_from.
+  destruct (c_same_step c) eqn:Hsame.
+  - pose proof (run_same c Hsame h (abf_set_grids Rops c (fst (abf_step Rops c s i0)) d 0) b) as H. cbn zeta in H.
+    destruct H as [Hc Hs]. split.
+    + rewrite Hc. reflexivity.
+    + intros k Hk. rewrite (Hs k Hk). unfold abf_set_grids. cbn [s_sum]. rewrite vget_vbuild by exact Hk. reflexivity.
+  - assert (Hszd : c_szd c = false).
+    { destruct (c_szd c) eqn:E; [|reflexivity]. unfold wf_cfg in Hwf. specialize (Hwf E). congruence. }
+    pose proof (link_set_grids c _ _ d 0%Z (link_step c s i0)) as Hl.
+    pose proof (run_lag c Hsame Hszd h _ _ Hl Hst b) as H. cbn zeta in H. destruct H as [Hc Hs]. split.
+    + rewrite Hc. reflexivity.
+    + intros k Hk. rewrite (Hs k Hk). unfold abf_set_grids. cbn [s_sum]. rewrite vget_vbuild by exact Hk. reflexivity.
+Qed.
